@@ -217,6 +217,51 @@ def rewrite_atoms(e, fnmap):
     raise KernelError(k)
 
 
+def map_indices(e, fn):
+    """apply fn to every top-level index term of every atom / delta / fatom (fn recurses itself if it wants to)"""
+    k = e[0]
+    if k == "atom":
+        return ("atom", e[1], tuple(fn(i) for i in e[2]))
+    if k == "delta":
+        return ("delta", fn(e[1]), fn(e[2]))
+    if k == "fatom":
+        return ("fatom", e[1], e[2], tuple(fn(i) for i in e[3]), e[4])
+    if k in ("num", "dim"):
+        return e
+    if k in ("add", "mul"):
+        return (k, tuple(map_indices(x, fn) for x in e[1]))
+    if k == "sum":
+        return ("sum", e[1], map_indices(e[2], fn))
+    if k == "pow":
+        return ("pow", map_indices(e[1], fn), e[2])
+    if k == "fn":
+        return ("fn", e[1], map_indices(e[2], fn))
+    raise KernelError(k)
+
+
+def index_terms(e, out=None):
+    """all top-level index terms of an expression"""
+    if out is None:
+        out = []
+    k = e[0]
+    if k == "atom":
+        out.extend(e[2])
+    elif k == "delta":
+        out.extend((e[1], e[2]))
+    elif k == "fatom":
+        out.extend(e[3])
+    elif k in ("add", "mul"):
+        for x in e[1]:
+            index_terms(x, out)
+    elif k == "sum":
+        index_terms(e[2], out)
+    elif k == "pow":
+        index_terms(e[1], out)
+    elif k == "fn":
+        index_terms(e[2], out)
+    return out
+
+
 def atoms_of(e, out=None):
     if out is None:
         out = set()
